@@ -283,6 +283,17 @@ def c03_unlisted_segment_dropped():
     return ('SPM' in a,), 'SPM' not in a
 
 
+@case
+def c05_group_order_depends_on_level():
+    out = []
+    for lvl in (VL.STRICT, VL.TOLERANT):
+        m = Message('ADT_A01', validation_level=lvl)
+        m.add_segment('PID')
+        m.add_segment('EVN')
+        out.append([c.name for c in m.children] and m.to_er7().replace('\r', ' ').split(' ')[1][:3])
+    return out, out[0] != out[1]
+
+
 if __name__ == '__main__':
     names = sys.argv[1:] or sorted(CASES)
     for n in names:
